@@ -24,29 +24,35 @@ package index
 
 // repository name pattern (repo: and the regexp form)
 //@ func index.(*indexData).simplify$1$1
-//@   requires repo != nil && r != nil
+//@   may_panic
 //@   ensures result == reMatch(r.Regexp, repo.Name)
 //@   assigns nothing
 //@ func index.(*indexData).simplify$1$2
-//@   requires repo != nil && r != nil
+//@   may_panic
 //@   ensures result == reMatch(r.Regexp, repo.Name)
 //@   assigns nothing
 
 // repository set: the name is in the set
 //@ func index.(*indexData).simplify$1$3
-//@   requires repo != nil && r != nil
+//@   may_panic
 //@   ensures result == r.Set[repo.Name]
+//@   assigns nothing
+
+// raw-config flags: all requested flags are set (bit arithmetic on the encoded
+// configuration; only "writes nothing" is stated)
+//@ func index.(*indexData).simplify$1$4
+//@   may_panic
 //@   assigns nothing
 
 // repository ids: the id is in the bitmap
 //@ func index.(*indexData).simplify$1$5
-//@   requires repo != nil && r != nil
+//@   may_panic
 //@   ensures result == bmHas(r.Repos, repo.ID)
 //@   assigns nothing
 
 // metadata filter: the field is present and its value matches
 //@ func index.(*indexData).simplify$1$6
-//@   requires repo != nil && r != nil
+//@   may_panic
 //@   ensures result == (repo.Metadata != nil && has(repo.Metadata, r.Field) && reMatch(r.Value, repo.Metadata[r.Field]))
 //@   assigns nothing
 
